@@ -108,10 +108,14 @@ PURE_EXT_PREFIXES = ('copy.', 'math.', 'random.', 'functools.', 'decimal.', 'reg
                      'tuple.', 'int.', 'float.', 'bool.', 'numbers.', 'fractions.', 'statistics.', 'string.',
                      'heapq.', 'bisect.', 'unicodedata.', 'textwrap.', 'enum.', 're.',
                      # reading a clock gives a program nothing to act on (time.sleep stays forbidden)
-                     'time.monotonic', 'time.perf_counter', 'time.time', 'time.process_time')
+                     'time.monotonic', 'time.perf_counter', 'time.time', 'time.process_time',
+                     # synchronisation objects give a program nothing to act on either (starting threads stays forbidden)
+                     'threading.Lock', 'threading.RLock', 'threading.local', 'threading.Condition', 'threading.Semaphore',
+                     'threading.BoundedSemaphore', 'threading.Event', 'threading.get_ident', 'threading.current_thread')
 FORBIDDEN_EXT_PREFIXES = ('os.', 'io.', 'sys.', 'subprocess.', 'socket.', 'importlib.', 'pickle.', 'ctypes.', 'shutil.',
                           'tempfile.', 'pathlib.', 'urllib.', 'http.', 'marshal.', 'shelve.', 'inspect.', 'gc.',
-                          'logging.', 'threading.', 'multiprocessing.', 'signal.', 'runpy.', 'code.', 'codeop.',
+                          'logging.', 'threading.Thread', 'threading.Timer', 'threading.enumerate', 'threading.main_thread', 'threading.settrace',
+                          'threading.setprofile', 'threading.excepthook', 'multiprocessing.', 'signal.', 'runpy.', 'code.', 'codeop.',
                           'pdb.', 'builtins.', 'types.', 'ast.', 'dis.', 'glob.', 'asyncio.', 'concurrent.',
                           'select.', 'selectors.', 'ssl.', 'ftplib.', 'smtplib.', 'webbrowser.', 'pty.', 'fcntl.',
                           'resource.', 'mmap.', 'sqlite3.', 'dbm.', 'zipfile.', 'tarfile.', 'gzip.', 'bz2.', 'lzma.',
